@@ -97,3 +97,476 @@ Proof.
     unfold l at 1. cbn [restore_if_many]. unfold restore_batch. fold l. fold lst.
     assert (e_term lst =? 0 = false) as -> by (apply N.eqb_neq; lia). reflexivity.
 Qed.
+
+(* ---------- batch ids ---------- *)
+
+Ltac bid := unfold batch_id, bsz, c09_batch_size in *.
+
+Lemma batch_id_mono : forall a b, a <= b -> batch_id a <= batch_id b.
+Proof. intros. bid. lia. Qed.
+Lemma batch_id_lt : forall a b, batch_id a < batch_id b -> a < b.
+Proof. intros. bid. lia. Qed.
+Lemma aligned_spec : forall i, i mod bsz = 0 -> forall x, x < i -> batch_id x < batch_id i.
+Proof. intros. bid. lia. Qed.
+
+Definition bfilter (b : N) (es : list entry) : list entry :=
+  filter (fun e => batch_id (e_index e) =? b) es.
+
+Lemma filter_comm : forall {A} (f h : A -> bool) l, filter f (filter h l) = filter h (filter f l).
+Proof.
+  induction l as [|a l IH]; [reflexivity|]. cbn [filter].
+  destruct (h a) eqn:H; destruct (f a) eqn:F; cbn [filter]; rewrite ?H, ?F, IH; reflexivity.
+Qed.
+
+Lemma filter_and : forall {A} (f h : A -> bool) l, filter (fun x => f x && h x) l = filter f (filter h l).
+Proof.
+  induction l as [|a l IH]; [reflexivity|]. cbn [filter].
+  destruct (h a) eqn:H; destruct (f a) eqn:F; cbn [filter andb]; rewrite ?F, IH; reflexivity.
+Qed.
+
+(* ---------- good lists ---------- *)
+
+Lemma good_from_in : forall l pi pt x, good_from pi pt l -> In x l -> pi < e_index x /\ pt <= e_term x.
+Proof.
+  induction l as [|e l IH]; intros pi pt x H HI; [contradiction|].
+  destruct H as (A & B & C). destruct HI as [<-|HI]; [auto|].
+  destruct (IH _ _ _ C HI). lia.
+Qed.
+
+Lemma good_from_filter : forall (f : entry -> bool) l pi pt, good_from pi pt l -> good_from pi pt (filter f l).
+Proof.
+  induction l as [|e l IH]; intros pi pt H; [exact I|].
+  destruct H as (A & B & C). cbn [filter]. destruct (f e).
+  - cbn [good_from]. repeat split; auto.
+  - apply IH. eapply good_from_weaken; eauto; lia.
+Qed.
+
+Lemma good_from_app : forall a b pi pt qi qt, good_from pi pt a ->
+  (forall x, In x a -> e_index x <= qi /\ e_term x <= qt) -> pi <= qi -> pt <= qt ->
+  good_from qi qt b -> good_from pi pt (a ++ b).
+Proof.
+  induction a as [|e a IH]; intros b pi pt qi qt Ha Hb Hi Ht Hg; cbn [app].
+  - eapply good_from_weaken; eauto.
+  - destruct Ha as (A & B & C). cbn [good_from]. repeat split; auto.
+    destruct (Hb e (or_introl eq_refl)). eapply IH; eauto.
+    intros x HI. apply Hb. now right.
+Qed.
+
+(* in an ascending list, what lies below i is a prefix: lb.Entries[:i] *)
+Lemma take_below_filter : forall l pi pt i, good_from pi pt l ->
+  take_below i l = filter (fun x => e_index x <? i) l.
+Proof.
+  induction l as [|e l IH]; intros pi pt i H; [reflexivity|].
+  destruct H as (A & B & C). cbn [take_below filter].
+  destruct (i <=? e_index e) eqn:E.
+  - apply N.leb_le in E. assert (e_index e <? i = false) as -> by (apply N.ltb_ge; lia).
+    symmetry. apply filter_nil. intros x HI. destruct (good_from_in _ _ _ _ C HI). apply N.ltb_ge. lia.
+  - apply N.leb_gt in E. assert (e_index e <? i = true) as -> by (apply N.ltb_lt; lia).
+    f_equal. eapply IH; eauto.
+Qed.
+
+Lemma good_last_in : forall (l : list entry) d, l <> [] -> In (last l d) l.
+Proof.
+  induction l as [|e l IH]; intros d H; [contradiction|].
+  destruct l as [|e1 l']; [now left|]. right. rewrite last_cons2. apply IH. discriminate.
+Qed.
+
+Lemma last_default : forall (l : list entry) d d', l <> [] -> last l d = last l d'.
+Proof.
+  induction l as [|e l IH]; intros d d' H; [contradiction|].
+  destruct l as [|e1 l']; [reflexivity|]. rewrite !last_cons2. apply IH. discriminate.
+Qed.
+
+Lemma good_le_last : forall l pi pt d x, good_from pi pt l -> In x l -> e_index x <= e_index (last l d).
+Proof.
+  induction l as [|e l IH]; intros pi pt d x H HI; [contradiction|].
+  destruct H as (A & B & C). destruct l as [|e1 l'].
+  - destruct HI as [<-|[]]. cbn. lia.
+  - rewrite last_cons2. destruct HI as [<-|HI].
+    + destruct (good_last_bounds (e1 :: l') _ _ d C ltac:(discriminate)). lia.
+    + eapply IH; eauto.
+Qed.
+
+(* getMergedFirstBatch on a stored batch of the same batch id: keep what is below the first
+   new index, then the new entries *)
+Lemma merge_first_batch_spec : forall eb lb e0 pi pt, good_from pi pt lb -> lb <> [] ->
+  hd e0 eb = e0 -> eb <> [] ->
+  (forall x, In x lb -> batch_id (e_index x) = batch_id (e_index e0)) ->
+  merge_first_batch eb lb = Some (filter (fun x => e_index x <? e_index e0) lb ++ eb).
+Proof.
+  intros eb lb e0 pi pt Hg Hn Hh Hne Hid. destruct eb as [|e eb']; [contradiction|]. cbn in Hh. subst e.
+  destruct lb as [|l0 lr]; [contradiction|]. unfold merge_first_batch.
+  rewrite (Hid l0 (or_introl eq_refl)). rewrite N.ltb_irrefl.
+  pose proof Hg as (A & B & C).
+  destruct (e_index l0 <? e_index e0) eqn:E.
+  - apply N.ltb_lt in E. destruct (e_index e0 <=? e_index (last (l0 :: lr) l0)) eqn:E2.
+    + rewrite (take_below_filter _ _ _ _ Hg). reflexivity.
+    + apply N.leb_gt in E2. rewrite filter_all; [reflexivity|].
+      intros x HI. apply N.ltb_lt. pose proof (good_le_last _ _ _ l0 x Hg HI). lia.
+  - apply N.ltb_ge in E. rewrite filter_nil; [reflexivity|].
+    intros x HI. apply N.ltb_ge. destruct HI as [<-|HI]; [lia|].
+    destruct (good_from_in _ _ _ _ C HI). lia.
+Qed.
+
+
+(* ---------- split into batches ---------- *)
+
+Definition dummy_entry : entry := mkEnt 0 0 0 0.
+Definition gid (g : list entry) : N := batch_id (e_index (hd dummy_entry g)).
+Definition uniform_id (g : list entry) (c : N) : Prop := forall x, In x g -> batch_id (e_index x) = c.
+
+Fixpoint ids_sorted (c : N) (es : list entry) : Prop :=
+  match es with [] => True | e :: t => c <= batch_id (e_index e) /\ ids_sorted (batch_id (e_index e)) t end.
+
+Fixpoint inc_groups (lo : N) (gs : list (list entry)) : Prop :=
+  match gs with
+  | [] => True
+  | g :: t => g <> [] /\ uniform_id g (gid g) /\ lo < gid g /\ inc_groups (gid g) t
+  end.
+
+Lemma split_concat : forall es cur, concat (split_batches cur es) = rev cur ++ es.
+Proof.
+  induction es as [|e r IH]; intros cur.
+  - cbn [split_batches]. destruct cur; [reflexivity|]. cbn [concat]. now rewrite !app_nil_r.
+  - cbn [split_batches]. destruct cur as [|c cur'].
+    + rewrite IH. reflexivity.
+    + destruct (batch_id (e_index e) =? batch_id (e_index c)).
+      * rewrite IH. cbn [rev]. now rewrite <- app_assoc.
+      * cbn [concat]. rewrite IH. reflexivity.
+Qed.
+
+Lemma uniform_gid : forall g c, g <> [] -> uniform_id g c -> gid g = c.
+Proof. intros [|e g] c H U; [contradiction|]. unfold gid. cbn. apply U. now left. Qed.
+
+Lemma split_ok : forall es cur c, cur <> [] -> uniform_id cur c -> ids_sorted c es ->
+  exists g t, split_batches cur es = g :: t /\ g <> [] /\ uniform_id g c /\ inc_groups c t.
+Proof.
+  induction es as [|e r IH]; intros cur c Hn HU HS.
+  - cbn [split_batches]. destruct cur as [|c0 cur']; [contradiction|].
+    exists (rev (c0 :: cur')), []. split; [reflexivity|]. split; [|split; [|exact I]].
+    + intros X. apply (f_equal (@length entry)) in X. rewrite rev_length in X. discriminate.
+    + intros x HI. apply HU. now apply in_rev.
+  - destruct HS as [HS1 HS2]. cbn [split_batches]. destruct cur as [|c0 cur']; [contradiction|].
+    rewrite (HU c0 (or_introl eq_refl)).
+    destruct (batch_id (e_index e) =? c) eqn:E.
+    + apply N.eqb_eq in E. apply (IH (e :: c0 :: cur') c); [discriminate | | now rewrite <- E].
+      intros x [<-|HI]; auto.
+    + apply N.eqb_neq in E.
+      destruct (IH [e] (batch_id (e_index e))) as (g' & t' & E' & G1 & G2 & G3); [discriminate | | auto |].
+      { intros x [<-|[]]. reflexivity. }
+      exists (rev (c0 :: cur')), (g' :: t'). rewrite E'. split; [reflexivity|]. split; [|split].
+      * intros X. apply (f_equal (@length entry)) in X. rewrite rev_length in X. discriminate.
+      * intros x HI. apply HU. now apply in_rev.
+      * cbn [inc_groups]. rewrite (uniform_gid _ _ G1 G2). split; [auto|]. split; [auto|]. split; [lia | auto].
+Qed.
+
+(* ascending indexes give sorted batch ids *)
+Lemma good_ids_sorted : forall l pi pt, good_from pi pt l -> ids_sorted (batch_id pi) l.
+Proof.
+  induction l as [|e l IH]; intros pi pt H; [exact I|].
+  destruct H as (A & B & C). split; [apply batch_id_mono; lia | eapply IH; eauto].
+Qed.
+
+Lemma contig_ids_sorted : forall es i, contig i es -> ids_sorted (batch_id i) es.
+Proof.
+  induction es as [|e es IH]; intros i HC; [exact I|].
+  destruct HC as [HC1 HC2]. split; [rewrite HC1; lia|]. rewrite HC1.
+  assert (ids_sorted (batch_id (i + 1)) es) by (apply IH; auto).
+  destruct es as [|e1 es']; [exact I|]. destruct H as [H1 H2]. split; auto.
+  destruct HC2 as [HC3 _]. rewrite HC3. apply batch_id_mono. lia.
+Qed.
+
+(* the groups of a contiguous list *)
+Lemma split_contig : forall e0 es, contig (e_index e0) (e0 :: es) ->
+  exists g t, split_batches [] (e0 :: es) = g :: t /\ g <> [] /\ uniform_id g (batch_id (e_index e0)) /\
+              inc_groups (batch_id (e_index e0)) t /\ concat (g :: t) = e0 :: es.
+Proof.
+  intros e0 es HC. cbn [split_batches].
+  destruct (split_ok es [e0] (batch_id (e_index e0))) as (g & t & E & G1 & G2 & G3); [discriminate | | |].
+  - intros x [<-|[]]. reflexivity.
+  - destruct HC as [_ HC2]. pose proof (contig_ids_sorted _ _ HC2) as H.
+    destruct es as [|e1 es']; [exact I|]. destruct H as [H1 H2]. split; auto.
+    destruct HC2 as [HC3 _]. rewrite HC3. apply batch_id_mono. lia.
+  - exists g, t. rewrite E. repeat split; auto. rewrite <- E, split_concat. reflexivity.
+Qed.
+
+(* each group is the part of the whole list with its batch id *)
+Lemma inc_groups_lower : forall gs lo g x, inc_groups lo gs -> In g gs -> In x g -> lo < batch_id (e_index x).
+Proof.
+  induction gs as [|g0 gs IH]; intros lo g x H HI HX; [contradiction|].
+  destruct H as (A & B & C & D). destruct HI as [<-|HI].
+  - rewrite (B x HX). exact C.
+  - pose proof (IH _ _ _ D HI HX). lia.
+Qed.
+
+Lemma bfilter_app : forall b a c, bfilter b (a ++ c) = bfilter b a ++ bfilter b c.
+Proof. intros. unfold bfilter. apply filter_app. Qed.
+
+Lemma inc_groups_nonempty : forall gs lo g, inc_groups lo gs -> In g gs -> g <> [].
+Proof.
+  induction gs as [|h t IH]; intros lo g H HI; [contradiction|].
+  destruct H as (A & B & C & D). destruct HI as [<-|HI]; eauto.
+Qed.
+
+Lemma inc_groups_gid_gt : forall gs lo g, inc_groups lo gs -> In g gs -> lo < gid g.
+Proof.
+  induction gs as [|h t IH]; intros lo g H HI; [contradiction|].
+  destruct H as (A & B & C & D). destruct HI as [<-|HI]; [exact C|].
+  pose proof (IH _ _ D HI). lia.
+Qed.
+
+Lemma bfilter_groups : forall gs lo, inc_groups lo gs ->
+  (forall g, In g gs -> bfilter (gid g) (concat gs) = g) /\
+  (forall b, (forall g, In g gs -> gid g <> b) -> bfilter b (concat gs) = []).
+Proof.
+  induction gs as [|g0 gs IH]; intros lo H.
+  - split; [intros g [] | reflexivity].
+  - destruct H as (A & B & C & D). destruct (IH _ D) as [I1 I2]. cbn [concat]. split.
+    + intros g [<-|HI]; rewrite bfilter_app.
+      * rewrite I2.
+        -- rewrite app_nil_r. unfold bfilter. apply filter_all. intros x HX. apply N.eqb_eq. now apply B.
+        -- intros g HI X. pose proof (inc_groups_gid_gt _ _ _ D HI). lia.
+      * rewrite (I1 g HI). unfold bfilter at 1. rewrite filter_nil; [reflexivity|].
+        intros x HX. apply N.eqb_neq. rewrite (B x HX).
+        pose proof (inc_groups_gid_gt _ _ _ D HI). lia.
+    + intros b Hb. rewrite bfilter_app. rewrite I2 by (intros g HI; apply Hb; now right).
+      rewrite app_nil_r. unfold bfilter. apply filter_nil. intros x HX. apply N.eqb_neq.
+      rewrite (B x HX). apply Hb. now left.
+Qed.
+
+(* ---------- recordBatch over the groups ---------- *)
+
+Definition bput (n : nid) (g : list entry) : wop := WPut (KBatch n (gid g)) (VBatch (compact_if_many g)).
+
+Lemma record_tail : forall m n first_id last_id t lo cn, inc_groups lo t -> first_id <= lo ->
+  exists cn', record_groups m n first_id last_id cn t = Some (cn', map (bput n) t) /\
+    c_state cn' = c_state cn /\ c_max cn' = c_max cn /\ c_snap cn' = c_snap cn /\
+    ((forall g, In g t -> gid g <> last_id) -> c_batch cn' = c_batch cn) /\
+    (forall g, In g t -> gid g = last_id -> c_batch cn' = Some g).
+Proof.
+  induction t as [|g t IH]; intros lo cn H Hlo.
+  - exists cn. cbn [record_groups map]. split; [reflexivity|]. split; [auto|]. split; [auto|].
+    split; [auto|]. split; [auto|]. intros g HI. destruct HI.
+  - destruct H as (A & B & C & D). destruct g as [|e0 g']; [contradiction|].
+    cbn [record_groups]. change (batch_id (e_index e0)) with (gid (e0 :: g')).
+    assert (first_id =? gid (e0 :: g') = false) as -> by (apply N.eqb_neq; lia).
+    set (cn1 := if last_id =? gid (e0 :: g') then mkC (c_state cn) (c_max cn) (c_snap cn) (Some (e0 :: g')) else cn).
+    destruct (IH (gid (e0 :: g')) cn1 D ltac:(lia)) as (cn' & E & S1 & S2 & S3 & S4 & S5).
+    exists cn'. rewrite E. split; [reflexivity|].
+    assert (c_state cn1 = c_state cn /\ c_max cn1 = c_max cn /\ c_snap cn1 = c_snap cn) as (T1 & T2 & T3)
+      by (unfold cn1; destruct (last_id =? gid (e0 :: g')); auto).
+    split; [congruence|]. split; [congruence|]. split; [congruence|]. split.
+    + intros Hne. rewrite S4 by (intros g HI; apply Hne; now right).
+      unfold cn1. assert (last_id =? gid (e0 :: g') = false) as ->; [|reflexivity].
+      apply N.eqb_neq. intros X. apply (Hne (e0 :: g')); [now left | auto].
+    + intros g [<-|HI] Hg.
+      * rewrite S4.
+        -- unfold cn1. rewrite <- Hg, N.eqb_refl. reflexivity.
+        -- intros g HI X. pose proof (inc_groups_gid_gt _ _ _ D HI). lia.
+      * now apply S5.
+Qed.
+
+(* ---------- the relation for the batched format ---------- *)
+
+Definition in_log (nd : rnode) (x : entry) : bool := (n_marker nd <? e_index x) && (e_index x <=? n_last nd).
+Definition hterm (nd : rnode) : N := N.max 1 (n_last_term nd).
+
+Record BC (g : gfun) (cb : option (list entry)) (nd : rnode) (n : nid) : Prop := mkBC {
+  bc_good : good_from (n_marker nd) (N.max 1 (n_mterm nd)) (n_ents nd);
+  bc_typed : forall b v, g (KBatch n b) = Some v -> exists raw, v = VBatch raw;
+  bc_all : forall b raw, g (KBatch n b) = Some (VBatch raw) ->
+     raw <> [] /\ good_from 0 1 (restore_if_many raw) /\
+     (forall x, In x (restore_if_many raw) ->
+        batch_id (e_index x) = b /\ e_term x <= hterm nd /\ e_index x < max_index) /\
+     filter (in_log nd) (restore_if_many raw) = bfilter b (n_ents nd);
+  bc_exists : forall e, In e (n_ents nd) ->
+     exists raw, g (KBatch n (batch_id (e_index e))) = Some (VBatch raw);
+  bc_cache : forall lb, cb = Some lb -> lb <> [] /\
+     (forall e, In e (n_ents nd) -> batch_id (e_index e) <= gid lb) /\
+     (batch_id (n_marker nd + 1) <= gid lb ->
+        exists raw, g (KBatch n (gid lb)) = Some (VBatch raw) /\ restore_if_many raw = lb)
+}.
+
+Lemma BC_ext : forall g g' cb nd n, BC g cb nd n -> (forall b, g' (KBatch n b) = g (KBatch n b)) -> BC g' cb nd n.
+Proof.
+  intros g g' cb nd n H HE. destruct H. constructor; auto.
+  - intros b v X. rewrite HE in X. exact (bc_typed0 b v X).
+  - intros b raw X. rewrite HE in X. exact (bc_all0 b raw X).
+  - intros e HI. rewrite HE. auto.
+  - intros lb Hc. destruct (bc_cache0 lb Hc) as (A & B & C). split; [auto|]. split; [auto|].
+    intros X. rewrite HE. auto.
+Qed.
+
+(* the stripped node: what the format-independent part of the relation sees *)
+Definition strip (nd : rnode) : rnode := mkNode (n_last nd) (n_last_term nd) [] (n_st nd) (n_ss nd).
+
+Lemma n_last_strip : forall nd, n_last (strip nd) = n_last nd.
+Proof. intros. unfold strip, n_last at 1, nlen. cbn [n_marker n_ents length]. lia. Qed.
+
+(* ---------- helpers for the entries stage ---------- *)
+
+Lemma ents_okb_good : forall es i prev pi, ents_okb i prev es = true -> pi < i -> good_from pi prev es.
+Proof.
+  induction es as [|e es IH]; intros i prev pi H Hp; [exact I|].
+  cbn [ents_okb] in H. rewrite !andb_true_iff in H. destruct H as ((((H1 & H2) & H3) & H4) & H5).
+  apply N.eqb_eq in H1. apply N.leb_le in H2. cbn [good_from]. repeat split; try lia.
+  apply (IH (i + 1)); auto. lia.
+Qed.
+
+Lemma good_retarget : forall e l pi pt pt', good_from pi pt (e :: l) -> pt' <= e_term e -> good_from pi pt' (e :: l).
+Proof. intros e l pi pt pt' (A & B & C) H. repeat split; auto. Qed.
+
+Lemma last_term_app : forall a b d, last_term d (a ++ b) = last_term (last_term d a) b.
+Proof. induction a as [|e a IH]; intros; [reflexivity|]. cbn [app last_term]. apply IH. Qed.
+
+Lemma good_le_last_term : forall l pi pt, good_from pi pt l -> pt <= last_term pt l /\
+  forall x, In x l -> e_term x <= last_term pt l.
+Proof.
+  induction l as [|e l IH]; intros pi pt H; cbn [last_term].
+  - split; [lia | intros x []].
+  - destruct H as (A & B & C). destruct (IH _ _ C) as [I1 I2]. split; [lia|].
+    intros x [<-|HI]; [lia | auto].
+Qed.
+
+Lemma last_term_default : forall l d d', l <> [] -> last_term d l = last_term d' l.
+Proof. destruct l; [contradiction | reflexivity]. Qed.
+
+Lemma term_at_in : forall es e i, contig i es -> In e es -> term_at es (e_index e) = e_term e.
+Proof.
+  induction es as [|e0 es IH]; intros e i HC HI; [contradiction|].
+  destruct HC as [HC1 HC2]. unfold term_at. cbn [find].
+  destruct (e_index e0 =? e_index e) eqn:E.
+  - apply N.eqb_eq in E. destruct HI as [<-|HI]; [reflexivity|].
+    pose proof (contig_bounds _ _ _ HC2 HI). lia.
+  - apply N.eqb_neq in E. destruct HI as [<-|HI]; [contradiction|].
+    apply (IH e (i + 1) HC2 HI).
+Qed.
+
+Lemma last_term_in : forall l d, l <> [] -> exists x, In x l /\ last_term d l = e_term x /\ x = last l x.
+Proof.
+  induction l as [|e l IH]; intros d H; [contradiction|]. cbn [last_term].
+  destruct l as [|e1 l'].
+  - exists e. split; [now left|]. split; reflexivity.
+  - destruct (IH (e_term e) ltac:(discriminate)) as (x & X1 & X2 & X3). exists x.
+    split; [now right|]. split; [exact X2|]. rewrite last_cons2. exact X3.
+Qed.
+
+Lemma compact_nonempty : forall l, l <> [] -> compact_if_many l <> [].
+Proof.
+  intros [|e0 [|e1 r]] H; try contradiction; cbn [compact_if_many]; try discriminate.
+  unfold compact_batch. destruct (_ && _); discriminate.
+Qed.
+
+Lemma wb_last_bputs : forall n gs lo k, inc_groups lo gs ->
+  (forall g, In g gs -> k = KBatch n (gid g) -> wb_last (map (bput n) gs) k = Some (Some (VBatch (compact_if_many g)))) /\
+  ((forall g, In g gs -> k <> KBatch n (gid g)) -> wb_last (map (bput n) gs) k = None).
+Proof.
+  induction gs as [|g0 gs IH]; intros lo k H; cbn [map wb_last].
+  - split; [intros g [] | auto].
+  - destruct H as (A & B & C & D). destruct (IH _ k D) as [I1 I2]. split.
+    + intros g [<-|HI] ->.
+      * rewrite I2; [cbn [bput wkey]; now rewrite key_eqb_refl|].
+        intros g HI X. unfold KBatch in X. inversion X.
+        pose proof (inc_groups_gid_gt _ _ _ D HI). lia.
+      * now rewrite (I1 g HI eq_refl).
+    + intros Hk. rewrite I2 by (intros g HI; apply Hk; now right).
+      cbn [bput wkey]. rewrite key_eqb_neq; auto. apply Hk. now left.
+Qed.
+
+Lemma KBatch_inj : forall n a b, KBatch n a = KBatch n b -> a = b.
+Proof. intros n a b H. unfold KBatch in H. now inversion H. Qed.
+
+Lemma hd_concat : forall (g : list entry) t e0 es, concat (g :: t) = e0 :: es -> g <> [] -> hd dummy_entry g = e0.
+Proof. intros [|x g] t e0 es H Hn; [contradiction|]. cbn in H. now inversion H. Qed.
+
+Lemma in_concat_group : forall (gs : list (list entry)) x, In x (concat gs) -> exists g, In g gs /\ In x g.
+Proof.
+  induction gs as [|g gs IH]; intros x H; [contradiction|]. cbn [concat] in H.
+  apply in_app_or in H. destruct H as [H|H]; [exists g; split; [now left | auto]|].
+  destruct (IH x H) as (g' & A & B). exists g'. split; [now right | auto].
+Qed.
+
+(* what the first (partial) batch of a save is merged with *)
+Definition merge_prefix_ok (nd : rnode) (i0 : N) (P : list entry) : Prop :=
+  good_from 0 1 P /\
+  (forall x, In x P -> batch_id (e_index x) = batch_id i0 /\ e_index x < i0 /\
+                       e_term x <= hterm nd /\ e_index x < max_index) /\
+  filter (fun x => n_marker nd <? e_index x) P = bfilter (batch_id i0) (below i0 (n_ents nd)).
+
+Lemma stored_prefix_ok : forall g cb nd n raw i0, BC g cb nd n ->
+  g (KBatch n (batch_id i0)) = Some (VBatch raw) -> i0 <= n_last nd + 1 ->
+  merge_prefix_ok nd i0 (filter (fun x => e_index x <? i0) (restore_if_many raw)).
+Proof.
+  intros g cb nd n raw i0 HB HG Hi. destruct (bc_all _ _ _ _ HB _ _ HG) as (A & B & C & D).
+  set (R := restore_if_many raw) in *. split; [now apply good_from_filter|]. split.
+  - intros x HI. apply filter_In in HI. destruct HI as [HI HX]. apply N.ltb_lt in HX.
+    destruct (C x HI) as (C1 & C2 & C3). auto.
+  - rewrite (filter_ext_in (fun x => n_marker nd <? e_index x) (in_log nd)).
+    + rewrite filter_comm, D. unfold bfilter, below. apply filter_comm.
+    + intros x HI. apply filter_In in HI. destruct HI as [_ HX]. apply N.ltb_lt in HX.
+      unfold in_log. assert (e_index x <=? n_last nd = true) as -> by (apply N.leb_le; lia).
+      now rewrite andb_true_r.
+Qed.
+
+Lemma empty_prefix_ok : forall nd i0, bfilter (batch_id i0) (below i0 (n_ents nd)) = [] -> merge_prefix_ok nd i0 [].
+Proof. intros nd i0 H. split; [exact I|]. split; [intros x []|]. now rewrite H. Qed.
+
+Lemma merged_first_spec : forall m g cn nd n g1 e0,
+  (forall b, g (KBatch n b) = kv_get m (KBatch n b)) -> BC g (c_batch cn) nd n ->
+  g1 <> [] -> hd dummy_entry g1 = e0 -> uniform_id g1 (batch_id (e_index e0)) ->
+  n_marker nd < e_index e0 <= n_last nd + 1 ->
+  exists P, b_merged_first m cn n g1 = Some (P ++ g1) /\ merge_prefix_ok nd (e_index e0) P.
+Proof.
+  intros m g cn nd n g1 e0 Hg HB Hn Hh HU Hi. set (i0 := e_index e0) in *. set (b0 := batch_id i0).
+  destruct g1 as [|x g1']; [contradiction|]. cbn [hd] in Hh. subst x.
+  assert (Hbelow : forall e, In e (below i0 (n_ents nd)) -> In e (n_ents nd) /\ e_index e < i0).
+  { intros e HI. unfold below in HI. apply filter_In in HI. destruct HI as [A B]. apply N.ltb_lt in B. auto. }
+  unfold b_merged_first. fold i0. fold b0.
+  destruct (i0 mod bsz =? 0) eqn:EA.
+  { (* batch aligned *)
+    apply N.eqb_eq in EA. exists []. split; [reflexivity|]. apply empty_prefix_ok.
+    unfold bfilter. apply filter_nil. intros e HI. destruct (Hbelow e HI) as [_ HL].
+    apply N.eqb_neq. pose proof (aligned_spec i0 EA _ HL). unfold b0 in *. lia. }
+  (* reading the batch from the store *)
+  assert (HDB : exists P, match get_batch_from_db m n b0 with
+                          | None => None
+                          | Some None => Some (e0 :: g1')
+                          | Some (Some lb) => merge_first_batch (e0 :: g1') lb
+                          end = Some (P ++ e0 :: g1') /\ merge_prefix_ok nd i0 P).
+  { unfold get_batch_from_db. rewrite <- Hg. destruct (g (KBatch n b0)) as [v|] eqn:G.
+    - destruct (bc_typed _ _ _ _ HB _ _ G) as (raw & ->).
+      destruct (bc_all _ _ _ _ HB _ _ G) as (A & B & C & D).
+      exists (filter (fun x => e_index x <? i0) (restore_if_many raw)). split.
+      + apply (merge_first_batch_spec _ _ e0 0 1); auto; try discriminate.
+        * intros X. destruct raw as [|r0 [|r1 rr]]; try contradiction; cbn in X; try discriminate.
+          unfold restore_batch in X. destruct (e_term _ =? 0); discriminate.
+        * intros x HI. destruct (C x HI) as (C1 & _). exact C1.
+      + eapply stored_prefix_ok; eauto. lia.
+    - exists []. split; [reflexivity|]. apply empty_prefix_ok. fold b0.
+      destruct (bfilter b0 (below i0 (n_ents nd))) as [|e r] eqn:F; [reflexivity|]. exfalso.
+      assert (In e (bfilter b0 (below i0 (n_ents nd)))) as HI by (rewrite F; now left).
+      unfold bfilter in HI. apply filter_In in HI. destruct HI as [HI HX]. apply N.eqb_eq in HX.
+      destruct (Hbelow e HI) as [HE _]. destruct (bc_exists _ _ _ _ HB e HE) as (raw & X).
+      rewrite HX in X. rewrite G in X. discriminate. }
+  destruct (c_batch cn) as [lb|] eqn:EC; [|exact HDB].
+  destruct (bc_cache _ _ _ _ HB lb eq_refl) as (Ln & Lb & Le).
+  destruct lb as [|l0 lr]; [contradiction|].
+  change (batch_id (e_index l0)) with (gid (l0 :: lr)).
+  destruct (b0 <? gid (l0 :: lr)) eqn:E1; [exact HDB|]. apply N.ltb_ge in E1.
+  destruct (N.eq_dec (gid (l0 :: lr)) b0) as [E2|E2].
+  - (* the cached batch is the stored batch of this id *)
+    destruct Le as (raw & G & RR).
+    { rewrite E2. unfold b0. apply batch_id_mono. lia. }
+    rewrite E2 in G. exists (filter (fun x => e_index x <? i0) (l0 :: lr)). split.
+    + destruct (bc_all _ _ _ _ HB _ _ G) as (A & B & C & D). rewrite RR in *.
+      apply (merge_first_batch_spec _ _ e0 0 1); auto; try discriminate.
+      intros x HI. destruct (C x HI) as (C1 & _). exact C1.
+    + rewrite <- RR. eapply stored_prefix_ok; eauto. lia.
+  - (* an older cached batch: the new entries start a batch *)
+    exists []. split.
+    + unfold merge_first_batch. change (batch_id (e_index l0)) with (gid (l0 :: lr)). fold i0. fold b0.
+      assert (b0 <? gid (l0 :: lr) = false) as -> by (apply N.ltb_ge; lia).
+      assert (gid (l0 :: lr) <? b0 = true) as -> by (apply N.ltb_lt; lia). reflexivity.
+    + apply empty_prefix_ok. unfold bfilter. apply filter_nil. intros e HI.
+      destruct (Hbelow e HI) as [HE _]. apply N.eqb_neq. pose proof (Lb e HE). unfold b0 in *. lia.
+Qed.
